@@ -111,6 +111,24 @@ impl ConstantFolding {
         )))
     }
 
+    /// Returns an expression that evaluates `expr` for its value only.
+    ///
+    /// A logical expression never produces a reference: `(true && o.f)()` calls `f` without `o`
+    /// as its `this`, `typeof (true && x)` throws for an unresolvable `x` and
+    /// `delete (true && o.p)` deletes nothing. Identifiers and property accesses are therefore
+    /// wrapped as `(undefined, expr)`, which is how the comma case below keeps `(pure, expr)`.
+    fn value_of(expr: Expression, span: boa_ast::Span) -> Expression {
+        match expr.flatten() {
+            Expression::Identifier(_) | Expression::PropertyAccess(_) => Binary::new(
+                BinaryOp::Comma,
+                Literal::new(LiteralKind::Undefined, span).into(),
+                expr,
+            )
+            .into(),
+            _ => expr,
+        }
+    }
+
     fn constant_fold_binary_expr(
         binary: &mut Binary,
         context: &mut Context,
@@ -213,7 +231,7 @@ impl ConstantFolding {
                     }
                 }
             };
-            return PassAction::Replace(expr);
+            return PassAction::Replace(Self::value_of(expr, span));
         }
 
         let Expression::Literal(rhs_literal) = binary.rhs() else {
